@@ -77,7 +77,7 @@ def gen_cases(rng, tier):
                 cases.append({"in": [list(h), [[k, 2]], 0, 1], "kind": "exh%d-disc" % n})
                 if n <= 2:
                     cases.append({"in": [list(h), [[k, 1]], 0, 1], "kind": "exh%d-err" % n})
-    nrand = 20000 if tier == "thorough" else 1300
+    nrand = 20000 if tier == "thorough" else 700
     for _ in range(nrand):
         n = rng.randint(4, 9)
         h = [rng.choice([E, E, E, B, C, R, R, S, SR, SC]) for _ in range(n)]
@@ -288,15 +288,18 @@ def oracle(c, obs):
     barrier = None  # connections with id < barrier were opened before a pool-invalidating failure
     blocked = False  # a disconnect hit while a transaction was in progress and no rollback() since
     for i, (op, (code, inval, txn, calls)) in enumerate(zip(hist, obs)):
-        fired = any(fk.get(ncall + j + 1) for j in range(len(calls)) if calls[j][0] != 4)
         # count only fault-consulting calls (close is logged but does not consult the oracle)
         idx = ncall
-        fired = False
+        fired = 0
         for kind, cid in calls:
             if kind != 4:
                 idx += 1
                 if fk.get(idx):
-                    fired = True
+                    fired = fk[idx]
+        if fired == 2 and listener != 1 and not (code == 2 and inval):
+            return "op %d: a DBAPI call failed with an error the dialect classifies as a disconnect, result code %d, invalidated=%d" % (i, code, inval)
+        if fired == 1 and listener != 2 and code == 2:
+            return "op %d: an error NOT classified as a disconnect was reported with connection_invalidated" % i
         if blocked and op != R:
             if calls:
                 return "op %d (%d) reached the DBAPI %s although a disconnect hit an open transaction and rollback() was not called" % (i, op, calls)
@@ -337,6 +340,23 @@ def match_finding(c, what):
     return None
 
 
-LEVEL_TEXT = "see LEVEL_NOTE"
-LEVEL_NOTE = ""
+LEVEL_TEXT = (
+    "Machine-checked proof (Coq) over a Gallina state machine of one Connection on a QueuePool with a fault oracle at "
+    "every DBAPI call, for ALL histories of execute/begin/commit/rollback/savepoint operations, ALL fault positions and "
+    "the modelled handle_error listeners: a disconnect-classified error leaves the Connection invalidated; after a "
+    "disconnect on a live connection no later execute/commit/rollback ever runs on a DBAPI connection opened before it "
+    "(invariant over the pool's invalidation time, proved for every continuation); with a transaction in progress every "
+    "later operation except rollback() raises and reaches no DBAPI call; rollback() clears the state without a DBAPI call "
+    "and the next execute reconnects; any other outcome leaves the pool untouched. The model is tied to the code by a "
+    "source pin and by running the REAL Engine/Connection/QueuePool over a fake DBAPI on exhaustive short and random "
+    "longer histories x fault positions x listeners."
+)
+LEVEL_NOTE = (
+    "Trusted: Coq kernel; the hand transcription (pin + correspondence); the fake DBAPI and logical clock. No axioms "
+    "(Print Assumptions: closed under the global context). Not covered: Connection.close()/checkin under faults (C26), "
+    "the handler's auto-rollback/re-entrancy branch (unreachable for this operation alphabet), listeners that raise or "
+    "replace the exception, two-phase transactions, several Connections sharing the pool (a connect()-time disconnect "
+    "during a reconnect does not stamp the pool - by design of Pool._invalidate, outside the property's 'statement fails' "
+    "premise), pre_ping."
+)
 TECHNIQUE = "Coq proof (state-machine invariants over all histories and fault oracles); source pin; correspondence on the real Engine over a fake DBAPI"
